@@ -36,5 +36,7 @@ one C09 F11 "withIgnoreTaggable"
 one C09 F12 "skip nil pointers in slices"
 one C10 F14 "nested map again that pointer tags"
 one C09 F14 "nested map again that pointer tags"
+one C10 F15 "pointer tags that go more than two maps deep"
+one C09 F15 "pointer tags that go more than two maps deep"
 one C16 eventfallback "resolve an event.s hmac salt and info"
 rm -rf "$SCR"
